@@ -553,3 +553,87 @@ Example C03_stats_keys :
        [117; 110; 99; 104; 97; 110; 103; 101; 100; 95; 119]; [107; 101; 121; 115]] /\
   length c03_stats_keys = length (stats_fields stats0).
 Proof. vm_compute. split; reflexivity. Qed.
+
+(* ---- END TO END with the checker of C06 instead of a parameter ------------------------------
+   [props_chk locale ref_text l10n_text] (Model/CheckPlain.v) is the .properties checker model of
+   C06 (Model/CheckProps.v: PropertiesChecker.check with Checker.check) behind the interface of
+   [compare_properties]: for the two entities it is given it takes key and unescaped value from
+   them and reads pre_comment.all, .all and raw_val from the TEXTS with the parser model, at the
+   offset that identifies the entity; error/warning and the identity of the message text are
+   kept, a raise of the checker would be an error finding.
+   For plain files the silence assumed by C03_end_to_end_properties is proved (C06_check_plain_silent):
+     - no reference value (unescaped) contains a per cent sign,
+     - the reference text does not contain the Localization_and_Plurals literal,
+     - the localized text contains no U+FFFD and no backslash,
+   then, with that checker, the report is as before and the observer's summary is
+   [errors = 0 (resp. 1 with one garbage region); warnings = 0] ++ the stats. *)
+From CL Require Model.CheckProps.
+From CL Require Import Model.CheckPlain Generated.C06Facts Proofs.E2ECheckedFinal.
+
+Theorem C03_end_to_end_properties_checked :
+  forall (locale : option str) (merge : bool) (j0 : nat)
+         (bsR bsL : list block) (lR lL : list (pykey * str)),
+  Forall legal_block bsR -> adjacent_ok bsR -> Forall2 tokenized (records_of bsR) lR ->
+  Forall legal_block bsL -> adjacent_ok bsL -> Forall2 tokenized (records_of bsL) lL ->
+  NoDup (lkeys lR) -> NoDup (lkeys lL) ->
+  Forall (fun kv => CheckProps.mem_N c_pct (snd kv) = false) lR ->
+  contains lit_plural_comment (file_text bsR) = false ->
+  CheckProps.mem_N c_fffd (file_text bsL) = false -> CheckProps.mem_N c_backslash (file_text bsL) = false ->
+  exists r,
+    compare_properties j0 (fun _ => VError) (props_chk locale (file_text bsR) (file_text bsL)) merge
+                       (file_text bsR) (file_text bsL) = Ok r /\
+    (a_missings r = missing_keys pykey_eqb lR lL /\
+     stats_fields (a_stats r) = flat_stats pykey_eqb str_eqb py_keyname wdf lR lL) /\
+    filter (@is_njunk pykey) (a_notes r) = [] /\
+    summary (fun _ => VError) r = 0 :: 0 :: flat_stats pykey_eqb str_eqb py_keyname wdf lR lL.
+Proof.
+  intros locale merge j0 bsR bsL lR lL H1 H2 H3 H4 H5 H6 H7 H8 H9 H10 H11 H12.
+  exact (end_to_end_properties_checked locale merge j0 bsR lR lL H1 H2 H3 H7 H8 H9 H10 bsL H4 H5 H6 H11 H12).
+Qed.
+
+Theorem C03_end_to_end_properties_junk_checked :
+  forall (locale : option str) (merge : bool) (j0 : nat)
+         (bsR bs1 : list block) (gl : list str) (bs2 : list block) (lR lL : list (pykey * str)),
+  Forall legal_block bsR -> adjacent_ok bsR -> Forall2 tokenized (records_of bsR) lR ->
+  Forall legal_block bs1 -> legal_garbage gl = true -> Forall legal_block bs2 ->
+  jadjacent_ok (with_garbage bs1 gl bs2) ->
+  Forall2 tokenized (records_of bs1 ++ records_of bs2) lL ->
+  NoDup (lkeys lR) -> NoDup (lkeys lL) ->
+  Forall (fun kv => CheckProps.mem_N c_pct (snd kv) = false) lR ->
+  contains lit_plural_comment (file_text bsR) = false ->
+  let textL := file_text bs1 ++ gtext gl ++ file_text bs2 in
+  let p := length (file_text bs1) in
+  let jk := KS (junk_key (S j0) (p, p + length (gtext gl))) in
+  ~ In jk (lkeys lR) -> ~ In jk (lkeys lL) ->
+  CheckProps.mem_N c_fffd textL = false -> CheckProps.mem_N c_backslash textL = false ->
+  exists r,
+    compare_properties j0 (fun _ => VError) (props_chk locale (file_text bsR) textL) merge
+                       (file_text bsR) textL = Ok r /\
+    (a_missings r = missing_keys pykey_eqb lR lL /\
+     stats_fields (a_stats r) = flat_stats pykey_eqb str_eqb py_keyname wdf lR lL) /\
+    filter (@is_njunk pykey) (a_notes r) = [NJunk (Z.of_nat p)] /\
+    summary (fun _ => VError) r = 1 :: 0 :: flat_stats pykey_eqb str_eqb py_keyname wdf lR lL.
+Proof.
+  intros locale merge j0 bsR bs1 gl bs2 lR lL H1 H2 H3 H4 H5 H6 H7 H8 H9 H10 H11 H12.
+  exact (end_to_end_properties_junk_checked locale merge j0 bsR lR lL H1 H2 H3 H9 H10 H11 H12
+           bs1 gl bs2 H4 H5 H6 H7 H8).
+Qed.
+
+(* the instantiated checker is the real one: on the texts  k = %S %d  /  k = %S  the run (parser,
+   checker with its regular expressions and difflib, comparison) reports the one warning of
+   C06 (trailing argument dropped) and counts it; on plain texts nothing *)
+Example C03_example_checked :
+  let s_ := map N.of_nat in
+  let tR := s_ [107; 32; 61; 32; 37; 83; 32; 37; 100; 10] in
+  let tL := s_ [107; 32; 61; 32; 37; 83; 10] in
+  let pR := s_ [107; 32; 61; 32; 97; 10; 109; 32; 61; 32; 98; 10] in
+  let pL := s_ [107; 32; 61; 32; 120; 10; 109; 32; 61; 32; 98; 10] in
+  match compare_properties 0 (fun _ => VError) (props_chk None tR tL) false tR tL,
+        compare_properties 0 (fun _ => VError) (props_chk None pR pL) false pR pL with
+  | Ok r, Ok q =>
+      summary (fun _ => VError) r = [0; 1; 0; 0; 0; 0; 1; 2; 0; 0; 0] /\
+      match a_notes r with [NCheck false _] => True | _ => False end /\
+      summary (fun _ => VError) q = [0; 0; 0; 0; 0; 0; 1; 1; 1; 1; 0]
+  | _, _ => False
+  end.
+Proof. vm_compute. repeat split; reflexivity. Qed.
